@@ -2,6 +2,10 @@
 
 package client
 
+import "github.com/mgtv-tech/redis-GunYu/pkg/redis/keyspec"
+
+var _ = keyspec.SpecLower // spec functions used by the contracts below
+
 // Contracts for the verification machinery in /verif (build tag "verif").
 //
 // Ghost model of the byte stream behind Decoder.r (ONE reader per decoder, assumed):
@@ -185,3 +189,30 @@ func SpecStream(i int) byte { panic("abstract spec function") }
 //@   ensures end_offset: result2 == nil ==> result1 == d.offset && result1 - old(d.offset) == (pos - old(pos)) + (unread - old(unread))
 //@   ensures grows: result2 == nil ==> result1 > old(d.offset)
 //@   ensures reader_kept: d.r == old(d.r)
+
+// ---- a decoded command: the name is the first bulk string lower-cased, the arguments are the other
+// bulk strings - the very byte slices the decoder produced, in order (C01: nothing altered; C12) ----
+//@ func AsArray
+//@   arith int
+//@   properties C12 C01
+//@   modifies nothing
+//@   ensures the_elements_of_an_array_reply: result1 == nil ==> hastype(r, "*Array") && astype(r, "*Array") != nil && result0 == astype(r, "*Array").Value
+//@   ensures an_earlier_error_passes: err != nil ==> result1 != nil
+
+//@ func AsBulkBytes
+//@   arith int
+//@   properties C12 C01
+//@   modifies nothing
+//@   ensures the_bytes_of_a_bulk_reply: result1 == nil ==> hastype(r, "*BulkBytes") && astype(r, "*BulkBytes") != nil && result0 == astype(r, "*BulkBytes").Value
+//@   ensures an_earlier_error_passes: err != nil ==> result1 != nil
+
+//@ func body:ParseArgs
+//@   arith int
+//@   properties C12 C01
+//@   nopanic
+//@   modifies nothing
+//@   ensures the_name_is_the_first_bulk_string_lower_cased [local]: err == nil ==> len(a) >= 1 && cmd == keyspec.SpecLower(string(bs[0])) && cmd != ""
+//@   ensures the_arguments_are_the_other_bulk_strings_in_order [local]: err == nil ==> len(args) == len(a) - 1 && (forall k int :: 0 <= k && k < len(args) ==> hastype(a[k + 1], "*BulkBytes") && astype(a[k + 1], "*BulkBytes") != nil && args[k] == astype(a[k + 1], "*BulkBytes").Value)
+//@   ensures the_list_decoded_is_the_reply [local]: err == nil ==> hastype(resp, "*Array") && astype(resp, "*Array") != nil && a == astype(resp, "*Array").Value
+//@   loop 1:
+//@     invariant collected: 0 <= i && i <= len(a) && len(bs) == len(a) && fresh(bs) && (forall k int :: 0 <= k && k < i ==> hastype(a[k], "*BulkBytes") && astype(a[k], "*BulkBytes") != nil && bs[k] == astype(a[k], "*BulkBytes").Value)
